@@ -267,6 +267,13 @@ pub fn dispatch(op: &str, a: &[&str]) -> Option<Ans> {
                 let r2 = crypto_generichash(&mut o2, &big[st..st + b[1].len()], if key.is_empty() { None } else { Some(key) });
                 if r2.is_ok() != r.is_ok() || (r.is_ok() && o2 != out) { return Some((format!("mismatch message at an odd address: {}", hex(&o2)), "n/a".into())); }
             }
+            // message and key in memory that ends at an unreadable page
+            {
+                let (gm, gk) = (Guarded::new(&b[1]), Guarded::new(key));
+                let mut o3 = vec![0u8; outlen];
+                let r3 = crypto_generichash(&mut o3, gm.as_slice(), if key.is_empty() { None } else { Some(gk.as_slice()) });
+                if r3.is_ok() != r.is_ok() || (r.is_ok() && o3 != out) { return Some(("mismatch operands in front of a guard page".into(), "n/a".into())); }
+            }
             // the same hash into a destination at an odd address inside a larger buffer
             {
                 let off = 1 + (b[1].len() + outlen) % 7;
@@ -404,6 +411,13 @@ pub fn dispatch(op: &str, a: &[&str]) -> Option<Ans> {
             let key: [u8; 16] = arr(&b[0]);
             let mut h = [0xA5u8; 8];
             crypto_shorthash(&mut h, &b[1], &key);
+            {
+                let (gm, gk) = (Guarded::new(&b[1]), Guarded::new(&key));
+                let kr: &[u8; 16] = gk.as_slice().try_into().unwrap();
+                let mut h3 = [0u8; 8];
+                crypto_shorthash(&mut h3, gm.as_slice(), kr);
+                if h3 != h { return Some(("mismatch operands in front of a guard page".into(), "n/a".into())); }
+            }
             // the same message at every address class 1..7 (mod 8)
             for off in 1..8usize {
                 let (big, st) = at_addr(&b[1], off);
